@@ -129,6 +129,28 @@ CHECKS = {
         "cross-manager subscriptions; two listener URL forms; one listed known "
         "finding (unmarked owned subscription not rediscovered)",
         "DESIGN.md 4-C18", "submgr"),
+    "C19": (
+        "TLA+ requirement machine (same outcome as bare connection, "
+        "statistics counter machine, raw data, password) and a TLC-checked "
+        "pipeline model of observer hooks; cells <operation, scripted server "
+        "behaviour, observer configuration> executed bare and observed on a "
+        "real WBEMConnection and judged by TLC",
+        "TLC explores every observer configuration x response class x server-"
+        "time class of the operation pipeline with its seven observer hooks "
+        "and proves NonInterference, ObserversTotal and StatsOnce for tolerant "
+        "hooks (the two legacy hook shapes must fail); on a real "
+        "WBEMConnection with a scripted transport adapter (which also checks "
+        "the credentials) every cell of 10 operation shapes x 12 server "
+        "behaviours (success with multi-byte content, CIM error, ill-formed / "
+        "invalid / non-UTF-8 replies, HTTP 500/401, connection error, timeout, "
+        "numeric and garbage WBEMServerResponseTime) x ~70 observer "
+        "configurations (api/http/all loggers x detail levels incl. every "
+        "byte offset class that cuts a multi-byte character, TestClientRecorder, "
+        "statistics, debug) runs bare and observed; outcomes, statistics "
+        "snapshots, last_raw_* and a password scan are judged by TLC.",
+        "scripted transport instead of a network; log destination file only; "
+        "outcome equality by canonical digest / exception class+args",
+        "DESIGN.md 4-C19", "observer"),
     "C10": (
         "TLA+ reference keyed map with set-valued status codes (RepoCore); "
         "code-shaped validation-order + dict/heap machine refinement in TLC; "
